@@ -166,7 +166,7 @@ pub fn check_framing(prologue: &'static [u8], blockexit: &'static [u8], epilogue
   let off = |name: u8| -> usize { match name { 0 => core::mem::offset_of!(Registers, af), 1 => core::mem::offset_of!(Registers, bc), 2 => core::mem::offset_of!(Registers, de), 3 => core::mem::offset_of!(Registers, hl), 4 => core::mem::offset_of!(Registers, sp), 5 => core::mem::offset_of!(Registers, ip), _ => core::mem::offset_of!(Registers, cycles) } };
   crate::vassert!(cpu.r[x86sem::RAX] == f32(off(0)) as u64 && cpu.r[x86sem::RBX] == f32(off(1)) as u64 && cpu.r[x86sem::RDX] == f32(off(2)) as u64 && cpu.r[x86sem::RCX] == f32(off(3)) as u64, "C01.frame.prologue_loads_pairs");
   crate::vassert!(cpu.r[12] & 0xffff == (f32(off(4)) & 0xffff) as u64 && cpu.r[13] & 0xffff == (f32(off(5)) & 0xffff) as u64, "C01.frame.prologue_loads_sp_ip");
-  crate::vassert!(cpu.r[15] & 0xffff == (f32(off(6)) & 0xffff) as u64, "C01.frame.prologue_loads_pending_cycles");
+  crate::vassert!(cpu.r[15] & 0xffff == (f32(off(6)) & 0xffff) as u64, "C02.frame.prologue_loads_pending_cycles");
   crate::vassert!(cpu.r[14] == 0, "C01.frame.prologue_clears_status");
   // the block leaves arbitrary guest values (upper halves of the pairs zero: the per-template invariant)
   cpu.r[x86sem::RAX] = guest[0] & 0xffff; cpu.r[x86sem::RBX] = guest[1] & 0xffff; cpu.r[x86sem::RDX] = guest[2] & 0xffff; cpu.r[x86sem::RCX] = guest[3] & 0xffff;
@@ -185,10 +185,31 @@ pub fn check_framing(prologue: &'static [u8], blockexit: &'static [u8], epilogue
   crate::vassert!(cpu.sp == 12 && !cpu.fault, "C01.frame.stack_pointer_restored");
   kani::cover!(true, "reached");
 }
+/// Native twin of the framing check: a one-instruction block (HALT) run through the REAL prologue, block exit and
+/// epilogue (`CodeCache::call`) from the counterexample's register file; every field must come back as the
+/// interpreter leaves it.  A mismatch is attributed to the framing obligations that cover that field.
 #[cfg(verif_playback)]
 pub fn check_framing(_p: &'static [u8], _b: &'static [u8], _e: &'static [u8]) {
-  // native equivalent: every native replay of a template harness runs the real prologue/epilogue through CodeCache::call
-  let _h = any_host(); let _s: [u8; 32] = kani::any(); let _g: [u64; 8] = kani::any();
+  let _h = any_host();
+  let smem: [u8; 32] = kani::any();
+  let _g: [u64; 8] = kani::any();
+  let f16 = |o: usize| -> u32 { (smem[o] as u32) | ((smem[o + 1] as u32) << 8) };
+  let mut m = cpuh::native::areas();
+  cpuh::native::poke(&mut m, 0x0150, 0x76);
+  let mk = || Registers { af: f16(0) & 0xfff0, bc: f16(4), de: f16(8), hl: f16(12), sp: f16(16), ip: 0x0150, cycles: f16(24) & 0x0fff };
+  let mut rj = mk();
+  let mut ri = mk();
+  let mut cache = crate::cache::CodeCache::new();
+  let addr = cache.translate_code_block(&m.rom, 0x0150, m.as_ptr());
+  let sj = cache.call(addr, &mut rj);
+  let si = crate::interpreter::run_code_block(&mut ri, &mut m as *mut MemoryAreas);
+  let (a1, b1, d1, h1, s1, i1, c1) = (rj.af, rj.bc, rj.de, rj.hl, rj.sp, rj.ip, rj.cycles);
+  let (a2, b2, d2, h2, s2, i2, c2) = (ri.af, ri.bc, ri.de, ri.hl, ri.sp, ri.ip, ri.cycles);
+  if a1 != a2 || b1 != b2 || d1 != d2 || h1 != h2 { eprintln!("VERIF-FAIL C01.frame.prologue_loads_pairs"); eprintln!("VERIF-FAIL C01.frame.epilogue_stores_pairs"); }
+  if s1 != s2 || i1 != i2 { eprintln!("VERIF-FAIL C01.frame.prologue_loads_sp_ip"); eprintln!("VERIF-FAIL C01.frame.epilogue_stores_sp_ip_cycles"); }
+  if c1 != c2 { eprintln!("VERIF-FAIL C02.frame.prologue_loads_pending_cycles"); eprintln!("VERIF-FAIL C01.frame.epilogue_stores_sp_ip_cycles"); }
+  if core_status(sj) != core_status(si) { eprintln!("VERIF-FAIL C01.frame.status_returned"); eprintln!("VERIF-FAIL C01.frame.prologue_clears_status"); }
+  core::mem::forget(m);
 }
 
 /// How `Core::run_code_block` interprets a returned status byte.
@@ -222,26 +243,28 @@ macro_rules! jcheck {
     let rj = jith::run_jit($tmpl, ovr, code, &r0, c0, &h, &o, $is_end);
     if ri.replayable && rj.run.replayable {
       $crate::vassert!(!rj.unsupported, concat!("C01.x86sem.unsupported_instruction@", $t));
-      $crate::vassert!(rj.stop_ok, concat!("C01.host.template_runs_to_its_end@", $t));
       let (a, b) = (&rj.run.regs, &ri.regs);
       let (af, bc, de, hl, sp, ip, cy) = (a.af, a.bc, a.de, a.hl, a.sp, a.ip, a.cycles);
       let (iaf, ibc, ide, ihl, isp, iip, icy) = (b.af, b.bc, b.de, b.hl, b.sp, b.ip, b.cycles);
-      $crate::vassert!(af == iaf, concat!("C01.af@", $t));
-      $crate::vassert!(bc == ibc, concat!("C01.bc@", $t));
-      $crate::vassert!(de == ide, concat!("C01.de@", $t));
-      $crate::vassert!(hl == ihl, concat!("C01.hl@", $t));
-      $crate::vassert!(sp == isp & 0xffff, concat!("C01.sp@", $t));
-      $crate::vassert!(ip == iip & 0xffff, concat!("C01.pc@", $t));
-      $crate::vassert!(jith::core_status(rj.run.status) == jith::core_status(ri.status), concat!("C01.status@", $t));
-      $crate::vassert!(rj.run.bus_ok, concat!("C01.bus_trace@", $t));
-      $crate::vassert!(rj.rsp_ok, concat!("C01.host.stack_pointer_restored@", $t));
-      $crate::vassert!(rj.callee_saved_ok, concat!("C01.host.callee_saved@", $t));
-      $crate::vassert!(rj.abi_ptr_ok, concat!("C01.host.helper_memory_pointer@", $t));
+      $crate::vchecks!(
+        (rj.stop_ok, concat!("C01.host.template_runs_to_its_end@", $t)),
+        (af == iaf, concat!("C01.af@", $t)),
+        (bc == ibc, concat!("C01.bc@", $t)),
+        (de == ide, concat!("C01.de@", $t)),
+        (hl == ihl, concat!("C01.hl@", $t)),
+        (sp == isp & 0xffff, concat!("C01.sp@", $t)),
+        (ip == iip & 0xffff, concat!("C01.pc@", $t)),
+        (jith::core_status(rj.run.status) == jith::core_status(ri.status), concat!("C01.status@", $t)),
+        (rj.run.bus_ok, concat!("C01.bus_trace@", $t)),
+        (rj.rsp_ok, concat!("C01.host.stack_pointer_restored@", $t)),
+        (rj.callee_saved_ok, concat!("C01.host.callee_saved@", $t)),
+        (rj.abi_ptr_ok, concat!("C01.host.helper_memory_pointer@", $t)),
+        (rj.invariant_ok, concat!("C01.host.register_invariant_preserved@", $t)),
+        (cy == icy & 0xffff, concat!("C02.cycles@", $t)),
+      );
       // Observation, not an obligation: the SysV ABI does not promise zero-extension of 8/16-bit arguments, the compiled
       // callees (LLVM zeroext) rely on it; no native run on this tree shows harm, so it is reported in the evidence only.
       kani::cover!(!rj.abi_ext_ok, "abi.helper_argument_not_zero_extended");
-      $crate::vassert!(rj.invariant_ok, concat!("C01.host.register_invariant_preserved@", $t));
-      $crate::vassert!(cy == icy & 0xffff, concat!("C02.cycles@", $t));
       kani::cover!(!rj.aligned_ok, "abi.stack_misaligned_at_helper_call");
     }
   }};
